@@ -121,7 +121,13 @@ func (e *Env) funcBody(ps *ProcSpec) func(t *sp.Task) {
 		}
 		key := taskKey(ps.Name, inPaths, t.Params)
 		vs.Event("S:" + key)
-		if ps.Barrier != "" && barrierMember(ps, key) {
+		atEnd := false
+		for _, m := range ps.BarrierEnd {
+			if strings.Contains(key, m) {
+				atEnd = true
+			}
+		}
+		if ps.Barrier != "" && barrierMember(ps, key) && !atEnd {
 			e.barrierWait(ps.Barrier, barrierSize(e.Spec, ps.Barrier))
 		}
 		for port, path := range inPaths {
@@ -147,6 +153,10 @@ func (e *Env) funcBody(ps *ProcSpec) func(t *sp.Task) {
 		if err := e.writeOutputs(ps.Name, key, outs, ins, t.Params); err != nil {
 			// a Go function reports failure the way the library's own helpers do
 			sp.Failf("task %s failed: %v", key, err)
+		}
+		if ps.Barrier != "" && barrierMember(ps, key) && atEnd {
+			// a slow task: its body ends only once its partners have come to the barrier
+			e.barrierWait(ps.Barrier, barrierSize(e.Spec, ps.Barrier))
 		}
 		vs.Event("E:" + key)
 	}
